@@ -221,7 +221,8 @@ def answerStr (ws : List String) : String :=
 def answerFuzz (ws : List String) : String :=
   match ws with
   | [dec, _, "=>", outcome] =>
-    let cls := if outcome.startsWith "panic" then "panic" else if outcome.startsWith "ok:reenc-panic" then "ok:reenc-panic" else outcome
+    let cls := if outcome.startsWith "panic" then "panic" else if outcome.startsWith "ok:reenc-panic" then "ok:reenc-panic"
+               else if outcome.startsWith "ok:reenc-err" then "ok:reenc-err" else outcome
     if !(["err", "ok:reenc-ok", "ok:reenc-err", "ok:reenc-panic", "panic"].contains cls) then "bad-case fuzz-outcome " ++ outcome.take 40 else
     let cs := fuzzClauses cls
     let arm := "fuzz-" ++ (dec.splitOn ":").head! ++ "-" ++ cls
